@@ -96,6 +96,8 @@ def stub_binds(sy, lep=None, itp=None):
         if isinstance(x, R):
             if (int(n), int(p)) == (2, 1):  # S_{2,1} = Li3, with its derivative rule
                 return Cx(fn("li3", x), sy.U("ImLi3", x))
+            if (int(n), int(p)) == (1, 1):  # S_{1,1} = Li2 (same atom family as every other dilogarithm)
+                return Cx(fn("li2", x), sy.U("ImLi2", x))
             return Cx(sy.U(f"ReS[{int(n)},{int(p)}]", x), sy.U(f"ImS[{int(n)},{int(p)}]", x))
         return orig_nielsen(n, p, x)
 
